@@ -5,6 +5,7 @@ import Drivers.Tab
 import Drivers.StoreD
 import Drivers.RotD
 import Drivers.CodecD
+import Drivers.TimerD
 
 def main (args : List String) : IO UInt32 := do
   let stdin ← IO.getStdin
@@ -17,4 +18,5 @@ def main (args : List String) : IO UInt32 := do
   | ["crash"] => Drivers.loop stdin Fix8Model.Store.FS.init Drivers.CrashD.step; return 0
   | ["rot"] => Drivers.loop stdin () (fun _ l => ((), Drivers.RotD.step l)); return 0
   | ["codec"] => Drivers.loop stdin () (fun _ l => ((), Drivers.CodecD.step l)); return 0
+  | ["timer"] => Drivers.loop stdin ({} : Drivers.TimerD.St) Drivers.TimerD.step; return 0
   | _ => IO.eprintln "usage: driver <stream>"; return 2
